@@ -812,8 +812,10 @@ func (tx *FnTx) baseEnv(cur, old *State) *SpecEnv {
 	} else if tx.fn.Parent() != nil && tx.fn.Parent().Pkg != nil {
 		env.pkg = tx.fn.Parent().Pkg.Pkg
 	}
+	env.paramNames = map[string]bool{}
 	for _, p := range tx.fn.Params {
 		env.vars[p.Name()] = tx.vals[p]
+		env.paramNames[p.Name()] = true
 	}
 	for _, fv := range tx.fn.FreeVars {
 		pt, ok := fv.Type().Underlying().(*types.Pointer)
@@ -1098,6 +1100,7 @@ func (tx *FnTx) enterLoop(li *loopInfo, pre *State) *State {
 	if li.spec != nil {
 		env := tx.baseEnv(pre, tx.entry)
 		env.resolve = tx.resolverAt(li.header, li.phiHead, false)
+		env.preferLocals = true
 		for _, inv := range li.spec.Invariants {
 			s, err := env.TrBool(inv.E)
 			if err != nil {
@@ -1116,6 +1119,7 @@ func (tx *FnTx) enterLoop(li *loopInfo, pre *State) *State {
 	if li.spec != nil && li.spec.HasMod {
 		env := tx.baseEnv(pre, tx.entry)
 		env.resolve = tx.resolverAt(li.header, li.phiHead, false)
+		env.preferLocals = true
 		regs, err := tx.resolveMods(li.spec.Modifies, env, false)
 		if err != nil {
 			panic(specErr{fmt.Sprintf("%s modifies: %v", tx.loopName(li), err)})
@@ -1170,6 +1174,7 @@ func (tx *FnTx) enterLoop(li *loopInfo, pre *State) *State {
 	if li.spec != nil {
 		env := tx.baseEnv(head, tx.entry)
 		env.resolve = tx.resolverAt(li.header, nil, false)
+		env.preferLocals = true
 		for _, inv := range li.spec.Invariants {
 			s, err := env.TrBool(inv.E)
 			if err != nil {
@@ -1341,6 +1346,7 @@ func (tx *FnTx) backEdge(u, h *ssa.BasicBlock, succIdx int, st *State) {
 	if li.spec != nil {
 		env := tx.baseEnv(st, tx.entry)
 		env.resolve = tx.resolverAt(h, over, false)
+		env.preferLocals = true
 		for _, inv := range li.spec.Invariants {
 			s, err := env.TrBool(inv.E)
 			if err != nil {
